@@ -72,13 +72,16 @@ impl GenericSingleObjectWriter {
         if !Self::HEADER_LENGTH_RANGE.contains(&original_length) {
             Err(Details::IllegalSingleObjectWriterState.into())
         } else {
-            write_value_ref_owned_resolved(&self.resolved, v, &mut self.buffer)?;
-            writer
-                .write_all(&self.buffer)
-                .map_err(Details::WriteBytes)?;
-            let len = self.buffer.len();
+            let result = write_value_ref_owned_resolved(&self.resolved, v, &mut self.buffer)
+                .and_then(|_| {
+                    writer
+                        .write_all(&self.buffer)
+                        .map_err(|e| Details::WriteBytes(e).into())
+                })
+                .map(|()| self.buffer.len());
+            // Always restore the buffer to only the header, also when writing failed
             self.buffer.truncate(original_length);
-            Ok(len)
+            result
         }
     }
 
